@@ -148,9 +148,16 @@ def judge(ctx, module, cases, canary_fn=None, cfg_consts='', invariants=(), tag=
         if v[0] == 'SKIP':
             ctx.skips += 1
         elif v[0] == 'ACCEPT':
-            if nontrivial is None or nontrivial(cases[i]):
+            if 'contained-only' in v[1]:
+                ctx.notes['accepted_for_containment_only'] = ctx.notes.get('accepted_for_containment_only', 0) + 1
+            else:
+                ctx.notes['accepted_with_full_comparison'] = ctx.notes.get('accepted_with_full_comparison', 0) + 1
+            nt = nontrivial is None or nontrivial(cases[i])
+            if nt:
                 ctx.distinct.add(case_key(cases[i], key_fields))
-            ctx.sample(describe(cases[i]) if describe else cases[i])
+            # samples: spread over the batch, non-trivial cases preferred
+            if nt and (len(ctx.samples) < 2 or (i % max(1, n // 7) == 0)):
+                ctx.sample(describe(cases[i]) if describe else cases[i], limit=6)
         elif i in explained:
             kf = explained[i]
             ctx.known_hits[kf['finding']] = ctx.known_hits.get(kf['finding'], 0) + 1
